@@ -113,6 +113,16 @@ def r1(ctx):
             pos, neg = (st.value.body, st.value.orelse) if _avail(st.value.test) > 0 else (st.value.orelse, st.value.body)
             sel[("numba", st.targets[0].id)] = unparse(pos)
             sel[("fallback", st.targets[0].id)] = unparse(neg)
+    # (prange, njit) = (numba.prange, numba.njit) if NUMBA_AVAILABLE else (fake_prange, fake_njit)
+    for st in g.tree.body:
+        if isinstance(st, ast.Assign) and len(st.targets) == 1 and isinstance(st.targets[0], (ast.Tuple, ast.List)) and isinstance(st.value, ast.IfExp) \
+                and _avail(st.value.test) and isinstance(st.value.body, (ast.Tuple, ast.List)) and isinstance(st.value.orelse, (ast.Tuple, ast.List)):
+            pos, neg = (st.value.body, st.value.orelse) if _avail(st.value.test) > 0 else (st.value.orelse, st.value.body)
+            names = [e.id for e in st.targets[0].elts if isinstance(e, ast.Name)]
+            if len(names) == len(pos.elts) == len(neg.elts):
+                for nm, a_, b_ in zip(names, pos.elts, neg.elts):
+                    sel[("numba", nm)] = unparse(a_)
+                    sel[("fallback", nm)] = unparse(b_)
     # (prange, njit) = _select():  the selector's return value, piece by piece
     for st in g.tree.body:
         if isinstance(st, ast.Assign) and len(st.targets) == 1 and isinstance(st.value, ast.Call) and isinstance(st.value.func, ast.Name) \
